@@ -4,6 +4,8 @@ package box
 
 import (
 	"fmt"
+	"slices"
+	"sort"
 	"sync"
 )
 
@@ -131,7 +133,54 @@ outer:
 	}
 }
 
+// private helpers — methods, and functions that are handed the receiver — are analysed in place and have no entry
+func (b *Box) locked() int { return b.n }
+func bump(x int, b *Box)   { b.n += x }
+func (b *Box) UsesPrivate() int {
+	b.mu.Lock()
+	defer b.mu.Unlock()
+	bump(1, b)
+	return b.locked()
+}
+
+// a private method started as a goroutine is an entry "<entry>.go<k>"; so is what a constructor starts
+func (b *Box) worker() {
+	b.mu.RLock()
+	_ = b.n
+	b.mu.RUnlock()
+}
+func (b *Box) StartsWorker() {
+	go b.worker()
+	go b.worker()
+}
+func NewBox() *Box {
+	b := &Box{mu: &sync.RWMutex{}}
+	go b.worker()
+	go func() { b.n = 9 }()
+	go fmt.Println("unrelated")
+	return b
+}
+
+// nobody in this file calls orphan: it keeps an entry of its own
+func (b *Box) orphan() { b.n = 3 }
+
+// a standard-library function known to only read its argument
+func (b *Box) CloneItems() []int {
+	b.mu.RLock()
+	defer b.mu.RUnlock()
+	return slices.Clone(b.items)
+}
+
 // ---- must be Unknown ----
+
+func (b *Box) rec()        { b.rec2() }
+func (b *Box) rec2()       { b.rec() }
+func (b *Box) Recursive()  { b.rec() }
+func both(x *Box, y *Box)  {}
+func (b *Box) PassTwice()  { both(b, b) }
+func (b *Box) SortItems()  { b.mu.RLock(); defer b.mu.RUnlock(); sort.Ints(b.items) }
+func NewBoxBad() *Box      { b := &Box{}; go fmt.Println(b); return b }
+
 
 func (b *Box) EscapeRecv() *Box      { return b }
 func (b *Box) PassRecv()             { fmt.Println(b) }
